@@ -315,7 +315,14 @@ class C10(PropertyCheck):
         b = case["mask"]["bits"]
         return "0" in b and "1" in b
 
+    _shrink_rounds = 0
+    SHRINK_ROUNDS_MAX = 120   # per run: the runner minimises every failing case; when many cases shrink to
+                              # the same witness it would otherwise walk through all of them
+
     def shrink(self, case):
+        self._shrink_rounds += 1
+        if self._shrink_rounds > self.SHRINK_ROUNDS_MAX:
+            return
         mj = case["mask"]
         bits = mj["bits"]
         h, w = mj["h"], mj["w"]
